@@ -734,16 +734,17 @@ def initialize_X_and_G(
             f"The size of correction vector ({n}) does"
             f" not match the size of x ({x.size})!"
         )
-    # restore the past X and G
-    for x, g in zip(
-        checkpoint.x - np.cumsum(checkpoint.hess_inv.sk, axis=0),
-        checkpoint.jac - np.cumsum(checkpoint.hess_inv.yk, axis=0),
+    # restore the past X and G: sk[i] = X[i+1] - X[i] (oldest first), so the points
+    # are obtained by walking back from the newest one, one difference at a time
+    # (more accurate than subtracting cumulative sums). Keep the maxcor most recent.
+    x_i, g_i = checkpoint.x, checkpoint.jac
+    for s_i, y_i in zip(
+        checkpoint.hess_inv.sk[::-1][:maxcor], checkpoint.hess_inv.yk[::-1][:maxcor]
     ):
-        if len(X) > maxcor:
-            X.popleft()
-            G.popleft()
-        X.append(x)
-        G.append(g)
+        x_i = x_i - s_i
+        g_i = g_i - y_i
+        X.appendleft(x_i)
+        G.appendleft(g_i)
     # at this point, X and G do not have x nor jac -> it is added a bit later
     return X, G
 
